@@ -43,10 +43,29 @@ def resStr : Res → String
   | .errMessage => "err:Message"
   | .sent m => s!"ev={m.n} mid={m.mid}"
 
+def verdictStr : Verdict → String
+  | .accepted => "accepted" | .tooFarAhead => "tooFarAhead" | .tooOld => "tooOld" | .reused => "reused"
+  | .epochGone => "epochGone" | .ratchetTooLong => "ratchetTooLong" | .indexOutOfBounds => "indexOutOfBounds"
+
+/-- the branch of the model a delivery takes (printed after `#`; for the evidence histogram only, never compared) -/
+def reason (c : Cl) (m : Msg) : String :=
+  let blocked := match tlookup m.n c.recs with
+    | some r => decide (r.state = 3)
+    | none => false
+  if blocked then "blocked"
+  else if !outerOpens c m.epoch then (if m.epoch > c.st.epoch then "epochAhead" else "outerGone")
+  else
+    match treeFor c.st m.epoch with
+    | none => "epochGone"
+    | some t =>
+      if m.sender = c.id then "own"
+      else verdictStr (recv c.cfg.T c.cfg.F ((tlookup m.sender t).getD Ratchet.new) m.gen).2
+
 def setCl (st : St) (j : Nat) (c : Cl) : St := { st with clients := st.clients.set j c }
 
 def exec (st : St) (toks : List String) : St × String :=
   match toks with
+  | ["msgwin"] => (St.init, "ok | -")
   | ["world"] => (St.init, "ok | -")
   | ["client", _, _, t, f, p] =>
     match t.toNat?, f.toNat?, p.toNat? with
@@ -83,7 +102,7 @@ def exec (st : St) (toks : List String) : St × String :=
       match st.clients[j]?, st.events[n]? with
       | some c, some (.msg m) =>
         let (c1, r) := deliver c m
-        (setCl st j c1, resStr r ++ " | " ++ view c1)
+        (setCl st j c1, resStr r ++ " #" ++ reason c m ++ " | " ++ view c1)
       | some c, some (.commit who e) =>
         -- only the case the generator produces: a commit of another member for the receiver's current epoch
         if who ≠ j ∧ e = c.st.epoch then
